@@ -2,6 +2,7 @@ import FastgoModel.Proofs.ReaderProps
 import FastgoModel.Reader.Example
 import FastgoModel.Proofs.StreamFrame
 import FastgoModel.Proofs.FrameUncond
+import FastgoModel.Proofs.FrameDict
 /-!
 # C05 — after io.EOF the source is positioned exactly at the end of the DEFLATE stream
 
@@ -75,6 +76,12 @@ theorem C05_spec_prefix_stable (mode : Spec.Mode) (bytes more : List UInt8) (out
     ∃ st', Spec.inflate mode [] (bytes ++ more) = .done out (rest ++ Spec.bytesToBits more) st' :=
   Spec.inflate_prefix_stable mode bytes more out rest st h hr
 
+/-- the same from ANY preset dictionary (zlib FDICT streams, flate.NewReaderDict), with no condition on the rest -/
+theorem C05_spec_prefix_stable_dict (mode : Spec.Mode) (dict bytes more : List UInt8) (out : Array UInt8) (rest : Spec.Bits)
+    (st : Spec.Stats) (h : Spec.inflate mode dict bytes = .done out rest st) :
+    ∃ st', Spec.inflate mode dict (bytes ++ more) = .done out (rest ++ Spec.bytesToBits more) st' :=
+  Spec.inflate_prefix_stable_dict mode dict bytes more out rest st h
+
 theorem C05_spec_inflater_exact_of_done (mode : Spec.Mode) (body : List UInt8) (out : Array UInt8) (rest : Spec.Bits)
     (st : Spec.Stats) (h : Spec.inflate mode [] body = .done out rest st) (hr : rest.length < 8) :
     (Container.specInflater mode).Exact body out.toList :=
@@ -92,6 +99,7 @@ end Fastgo.Reader
 
 #print axioms Fastgo.Reader.C05_spec_stream_frame
 #print axioms Fastgo.Reader.C05_spec_prefix_stable
+#print axioms Fastgo.Reader.C05_spec_prefix_stable_dict
 #print axioms Fastgo.Reader.C05_spec_inflater_exact_of_done
 #print axioms Fastgo.Reader.C05_spec_inflater_exact
 #print axioms Fastgo.Reader.C05_invariant
